@@ -18,6 +18,7 @@
 -/
 import HaqqModel.Prelude.Basic
 import HaqqModel.Generated.Facts
+import HaqqModel.Props.KeeperMemory
 
 namespace Haqq.C20
 
@@ -96,32 +97,6 @@ theorem unrebuilt_write_counterexample :
     (cacheApp.run n1 [2]).2 = [7] ∧ (cacheApp.run (cacheApp.restart n1) [2]).2 = [8] := by
   decide
 
-/-! ### the hypothesis, over the regenerated facts -/
-
-/-- receiver-field writes that construction (or the next BeginBlock) repeats on the restarted node -/
-def rebuiltWriters : List (String × String) :=
-  [ ("x/epochs/keeper/keeper.go::Keeper.hooks", "Keeper.SetHooks"),                 -- NewHaqq wiring
-    ("x/evm/keeper/keeper.go::Keeper.eip155ChainID", "Keeper.WithChainID"),         -- BeginBlock, from the header
-    ("x/evm/keeper/keeper.go::Keeper.hooks", "Keeper.CleanHooks"),                  -- test helper, no caller in app
-    ("x/evm/keeper/keeper.go::Keeper.hooks", "Keeper.SetHooks"),                    -- NewHaqq wiring
-    ("x/evm/keeper/precompiles.go::Keeper.precompiles", "Keeper.WithPrecompiles"),  -- NewHaqq wiring
-    ("x/evm/keeper/precompiles.go::Keeper.precompiles", "Keeper.AddEVMExtensions") ] -- no caller, see below
-
-theorem packages_loaded : Facts.determinismPackagesLoaded = true := by decide
-
-/-- every write to process-local keeper state is one of the rebuilt ones -/
-theorem mem_writes_rebuilt : Facts.keeperFieldWriters.all (fun s => rebuiltWriters.contains s) = true := by decide
-
-/-- the only container a keeper holds outside the store is the EVM keeper's precompile map, which construction fills
-    (`WithPrecompiles`) and nothing changes afterwards (`mem_writes_rebuilt`, `no_dynamic_extensions`); a keeper
-    field that can accumulate data in memory — a cache, a ring of recent values, a counter behind a pointer — is
-    state a restarted node does not have -/
-theorem keepers_hold_no_memory : Facts.keeperMemFields = [("x/evm/keeper::Keeper.precompiles", "map")] := by decide
-
-/-- extensions are never registered after construction: the only function that calls `AddEVMExtensions` is the
-    ERC20 registration helper, and nothing calls that -/
-theorem no_dynamic_extensions :
-    Facts.dynamicExtensionCallers = ["x/erc20/keeper/precompiles.go::RegisterERC20Extensions→AddEVMExtensions"] := by
-  decide
+/-! ### the hypothesis, over the regenerated facts: `Props/KeeperMemory.lean` (shared with C01) -/
 
 end Haqq.C20
